@@ -38,3 +38,10 @@ Proof. vm_compute. split; reflexivity. Qed.
 Theorem C13_tree_resolution_independent : forall k l, 0 < k -> parent_map (scale_evs k l) = parent_map l.
 Proof. exact C13_parent_map_scale. Qed.
 Print Assumptions C13_tree_resolution_independent.
+
+(* ... and the kernel totals: the count is unchanged, the summed duration and the earliest start are multiplied by k, the latest
+   end is multiplied by k or is still the sentinel -1 -- the statement the whole-microsecond truncation fixed in 1b44595 violated *)
+Theorem C13_kernel_totals_resolution_independent : forall k fuel l devs m tmax i, 0 < k ->
+  kinfo_rel k (kinfo_of fuel l devs m tmax i) (kinfo_of fuel (scale_evs k l) devs m (k * tmax) i).
+Proof. exact C13_kinfo_scale. Qed.
+Print Assumptions C13_kernel_totals_resolution_independent.
